@@ -35,7 +35,7 @@ ASSUMPTIONS = [
 MUST_REACH = {
     "roundtrips": 400, "templates_covered": 481, "zerocoded": 20, "with_acks": 20, "with_extra": 20,
     "fill_cases": 50, "fill_mixed_marks_in_one_list": 10, "failed_serializations_before_good_ones": 30, "serialized_twice": 100, "fill_unset_fixed": 1, "fill_unset_variable": 1, "omitted_trailing": 5, "count_255": 1, "count_0": 5,
-    "ref_bytes_equal": 400, "roundtrips_custom_template": 300, "header_edits_on_received": 100, "header_edits_on_zerocoded": 10, "header_edits_after_body_parse": 10,
+    "ref_bytes_equal": 400, "roundtrips_custom_template": 300, "template_file_loads": 10, "header_edits_on_received": 100, "header_edits_on_zerocoded": 10, "header_edits_after_body_parse": 10,
 }
 
 _ser = UDPMessageSerializer()
@@ -412,6 +412,51 @@ def directed(ctx):
                     check_spec(ctx, spec)
 
 
+def template_files(ctx, rng):
+    """Caller-supplied templates usually come from a file.  The same path holds one revision of the template, then another
+    (an edit, a roll-back to an older copy with an older time stamp, a second save within the same clock tick): every codec
+    object built from the path afterwards goes by what the file says at that moment."""
+    import io
+    import os
+    import shutil
+    import tempfile
+    from ..custom_template import custom_template_text
+    from hippolyzer.lib.base.message.template_dict import TemplateDictionary
+    tmp = tempfile.mkdtemp(prefix="hvc01_")
+    path = os.path.join(tmp, "message_template.msg")
+    texts = [custom_template_text(0), custom_template_text(1)]
+
+    def layout(td):
+        return [(t.name, [(b.name, [(v.name, v.type.name, v.size) for v in b.variables]) for b in t.blocks]) for t in td]
+    want = [layout(TemplateDictionary(message_template=io.StringIO(t))) for t in texts]
+    try:
+        stamp = 1_700_000_000
+        for step, (rev, dstamp) in enumerate([(0, 0), (1, 0), (0, -500), (1, +1), (0, +1), (1, -3)]):
+            with open(path, "w") as f:
+                f.write(texts[rev])
+            stamp += dstamp
+            os.utime(path, (stamp, stamp))
+            for how in ("dictionary", "serializer"):
+                with open(path) as fh:
+                    try:
+                        td = TemplateDictionary(message_template=fh) if how == "dictionary" else \
+                            UDPMessageSerializer(message_template=fh).template_dict
+                        got = layout(td)
+                    except Exception as e:
+                        ctx.violation("template-file:raises", "building a codec object from a template file raised",
+                                      {"step": step, "how": how, "exc": repr(e)[:200]})
+                        return
+                ctx.count("template_file_loads")
+                if got != want[rev]:
+                    ctx.violation("template-file:stale-revision", "a codec object built from a template file does not go by what "
+                                  "the file says now", {"step": step, "how": how, "revision": rev, "mtime_delta": dstamp,
+                                                        "is_other_revision": got == want[1 - rev]})
+                    return
+        ctx.ev()
+    finally:
+        shutil.rmtree(tmp, ignore_errors=True)
+
+
 def run(ctx):
     rng = ctx.rng
     templates = gen_msg.all_templates()
@@ -419,6 +464,8 @@ def run(ctx):
     covered = set()
     if ctx.shard == 0:
         directed(ctx)
+    if ctx.shard == 1 % max(ctx.nshards, 1):
+        template_files(ctx, rng)
     for ti, tmpl in enumerate(templates):
         # every shard visits every template (different rng) in thorough; quick splits the per-template budget
         for k in range(per_template):
